@@ -63,9 +63,12 @@ Definition no_dangling_b (nodes : list nat) (edges : list edge) : bool :=
 Definition subset_b (a b : list nat) : bool := forallb (fun x => memn x b) a.
 Definition set_eqb (a b : list nat) : bool := subset_b a b && subset_b b a.
 
-Definition declared_succ (w : world) (c : gclass) (x : nat) : list nat :=
+(* successors along the relations of class c, given the declaration table [dl] *)
+Definition declared_succ_f (dl : nat -> list decl) (c : gclass) (x : nat) : list nat :=
   flat_map (fun d => if existsb (fun r => rel_eqb (fst r) (fst (fst d))) (rels_of_class c)
-                     then [d_target d] else []) (decls w x).
+                     then [d_target d] else []) (dl x).
 (* predecessors among a given universe of entities *)
-Definition declared_pred (w : world) (c : gclass) (univ : list nat) (x : nat) : list nat :=
-  filter (fun y => memn x (declared_succ w c y)) univ.
+Definition declared_pred_f (dl : nat -> list decl) (c : gclass) (univ : list nat) (x : nat) : list nat :=
+  filter (fun y => memn x (declared_succ_f dl c y)) univ.
+Definition declared_succ (w : world) : gclass -> nat -> list nat := declared_succ_f (decls w).
+Definition declared_pred (w : world) : gclass -> list nat -> nat -> list nat := declared_pred_f (decls w).
